@@ -26,7 +26,9 @@ def cases(draw, tier):
     n_all = len(nl['gates'])
     sel = [draw(st.integers(0, n_all - 1)) for _ in range(draw(st.integers(0, 3)))] if n_all else []
     return {'nl': nl, 'route': route, 'alt_route': alt, 'sel': sel,
-            'row_seed': draw(st.integers(0, 2 ** 16))}
+            'row_seed': draw(st.integers(0, 2 ** 16)),
+            # the caller keeps ONE assignment dictionary and only rewrites the input values between calls
+            'keep_dict': draw(st.booleans())}
 
 
 def _isbool(v):
@@ -79,9 +81,15 @@ def check_eval(case):
 
         rnd = random.Random(case['row_seed'])
         rows = sorted({0, W - 1} | {rnd.randrange(W) for _ in range(40)})
+    kept: dict = {}
     for j in rows:
         x = [bool((j >> (n - 1 - i)) & 1) for i in range(n)]
         assign = dict(zip(nl['inputs'], x))
+        if case.get('keep_dict'):
+            kept.update(assign)
+            arg = lambda: kept  # noqa: E731
+        else:
+            arg = lambda: dict(assign)  # noqa: E731
         exp_out = [_bit(t[o], j) for o in outs]
         r = c.evaluate(list(x))
         if r != exp_out or any(not _isbool(v) for v in r):
@@ -90,7 +98,7 @@ def check_eval(case):
             v = c.evaluate_at(list(x), k)
             if v is not exp_out[k]:
                 raise Violation('evaluate_at', f'row {x} output {k}: got {v!r} expected {exp_out[k]}')
-        d = c.evaluate_circuit(dict(assign))
+        d = c.evaluate_circuit(arg())
         if set(d) != set(labs):
             raise Violation('evaluate_circuit', f'keys {sorted(d)} != gates')
         for lab in labs:
@@ -101,7 +109,7 @@ def check_eval(case):
             elif not (d[lab] is e or d[lab] == U):
                 raise Violation('evaluate_circuit', f'row {x} unreachable gate {lab}: got {d[lab]!r}, expected {e} or Undefined')
         if sel:
-            d2 = c.evaluate_circuit(dict(assign), outputs=list(sel))
+            d2 = c.evaluate_circuit(arg(), outputs=list(sel))
             for lab in labs:
                 e = _bit(t[lab], j)
                 if lab in reach_sel or typ[lab] == 'INPUT':
@@ -109,10 +117,10 @@ def check_eval(case):
                         raise Violation('evaluate_circuit_sel', f'row {x} outputs={sel} gate {lab}: got {d2[lab]!r} expected {e}')
                 elif not (d2[lab] is e or d2[lab] == U):
                     raise Violation('evaluate_circuit_sel', f'row {x} gate {lab}: got {d2[lab]!r}')
-        d3 = c.evaluate_circuit_outputs(dict(assign))
+        d3 = c.evaluate_circuit_outputs(arg())
         if d3 != {o: _bit(t[o], j) for o in outs}:
             raise Violation('evaluate_circuit_outputs', f'row {x}: got {d3}')
-        d4 = c.evaluate_full_circuit(dict(assign))
+        d4 = c.evaluate_full_circuit(arg())
         if set(d4) != set(labs):
             raise Violation('evaluate_full_circuit', f'keys {sorted(d4)} != gates {sorted(labs)}')
         for lab in labs:
@@ -137,6 +145,8 @@ def check_eval(case):
 
     cls = gen.classify(nl)
     cls.add('route:' + case['route']['kind'])
+    if case.get('keep_dict'):
+        cls.add('kept_assignment_dict')
     return {'nt': gen.nontrivial_basic(nl), 'cls': cls, 'key': [nl['inputs'], nl['gates'], nl['outputs']],
             'sample': {'bench': build.bench_text(nl), 'route': case['route']}}
 
